@@ -27,7 +27,8 @@ from .server import LoopbackServer
 
 ST = "/venv/bin/st"
 SINKS = ["console", "curl", "junit", "vcr", "har"]
-ROUTES = ["user-header", "auth-basic", "gen-header", "gen-query", "gen-cookie", "url-userinfo", "resp-set-cookie", "resp-header"]
+ROUTES = ["user-header", "auth-basic", "gen-header", "gen-query", "gen-cookie", "url-userinfo", "resp-set-cookie", "resp-header",
+          "requests-auth"]
 CUSTOM = {"default": None, "custom-keys": {"keys_to_sanitize": ["X-Custom"]}, "custom-markers": {"sensitive_markers": ["Zeta"]}}
 NOT_GENERATED_HEADERS = {"accept", "content-type", "authorization", "cookie", "set-cookie", "user-agent", "location", "etag"}
 NOT_RESPONSE_HEADERS = {"content-type", "content-length", "set-cookie", "cookie", "location"}
@@ -229,31 +230,54 @@ def occurs(secret: str, haystack: str) -> bool:
     return any(core in haystack for core in b64_cores(secret))
 
 
-def plan_runs(ctx: Ctx, pool: list[str]) -> list[dict]:
-    def headers_run(cfg, sanitize, user, gh, gq, gc, rc, rh):
-        return {"mode": "headers", "cfg": cfg, "sanitize": sanitize,
-                "names": {"user-header": user, "gen-header": gh, "gen-query": gq, "gen-cookie": gc, "resp-set-cookie": rc, "resp-header": rh}}
+def spellings(key: str) -> list[str]:
+    """The three spellings of a default key that Sanitize.tla puts into the pool (original, upper, mixed)."""
+    return [key, key.upper(), "".join(c.upper() if i % 2 == 0 else c for i, c in enumerate(key))]
+
+
+def plan_runs(ctx: Ctx, pool: list[str], default_keys: list[str]) -> list[dict]:
+    """A run = configuration + sanitize flag + slots; a slot = (route, carrier name), each with its own canary. One CLI run can carry
+    many slots per route (many -H options, many generated header / query / cookie parameters, many Set-Cookie headers)."""
+
+    def headers_run(cfg, sanitize, user, gh, gq, gc, rc, rh, **extra):
+        slots = [{"route": r, "name": n} for r, n in (("user-header", user), ("gen-header", gh), ("gen-query", gq), ("gen-cookie", gc),
+                                                    ("resp-set-cookie", rc), ("resp-header", rh))]
+        return dict({"mode": "headers", "cfg": cfg, "sanitize": sanitize, "slots": slots}, **extra)
+
+    def key_run(cfg, sanitize, rotation):
+        """EVERY default key of the specification in header, query and cookie position; the spelling rotates with `rotation`."""
+        slots = []
+        for k in default_keys:
+            sp = spellings(k)
+            slots.append({"route": "gen-header", "name": sp[rotation % 3]})
+            slots.append({"route": "gen-query", "name": sp[(rotation + 1) % 3]})
+            slots.append({"route": "gen-cookie", "name": sp[(rotation + 2) % 3]})
+        return {"mode": "headers", "cfg": cfg, "sanitize": sanitize, "slots": slots}
 
     runs = [
         headers_run("default", True, "Authorization", "X-API-Key", "api_key", "sessionid", "sid", "X-Auth-Token"),
         headers_run("default", False, "Authorization", "X-API-Key", "api_key", "sessionid", "sid", "X-Auth-Token"),
-        {"mode": "auth", "cfg": "default", "sanitize": True, "names": {}},
-        {"mode": "userinfo", "cfg": "default", "sanitize": True, "names": {}},
+        {"mode": "auth", "cfg": "default", "sanitize": True, "slots": [{"route": "auth-basic", "name": "Authorization"}]},
+        {"mode": "userinfo", "cfg": "default", "sanitize": True, "slots": [{"route": "url-userinfo", "name": "Authorization"}]},
         headers_run("custom-keys", True, "X-Custom", "X-Trace", "token", "Kee", "PHPSESSID", "Set-Cookie"),
         headers_run("custom-markers", True, "X-Zeta-Id", "Token-X", "api_key", "zetacookie", "sid", "X-Auth-Token"),
         headers_run("default", True, "X-Trace", "X-Request-Id", "page", "theme", "lang", "ETag"),
-        dict(headers_run("default", True, "X-Auth-Token", "X-Secret-Id", "client_secret", "csrftoken", "PHPSESSID", "X-Token"), eq=True),
-        {"mode": "auth", "cfg": "default", "sanitize": True, "names": {}, "eq": True},
+        headers_run("default", True, "X-Auth-Token", "X-Secret-Id", "client_secret", "csrftoken", "PHPSESSID", "X-Token", eq=True),
+        {"mode": "auth", "cfg": "default", "sanitize": True, "slots": [{"route": "auth-basic", "name": "Authorization"}], "eq": True},
     ]
+    # every default key x 3 spellings x {header, query, cookie}: 3 rotations; under custom markers only the exact-key rule can match
+    runs += [key_run("default", True, r) for r in range(3)] + [key_run("custom-markers", True, r) for r in range(3)]
+    runs.append(key_run("default", False, ctx.seed % 3))
     if ctx.quick:
         return runs
-    runs += [{"mode": "auth", "cfg": "default", "sanitize": False, "names": {}},
-             {"mode": "userinfo", "cfg": "default", "sanitize": False, "names": {}},
-             {"mode": "auth", "cfg": "custom-keys", "sanitize": True, "names": {}},
-             {"mode": "userinfo", "cfg": "custom-markers", "sanitize": True, "names": {}}]
+    runs += [{"mode": "auth", "cfg": "default", "sanitize": False, "slots": [{"route": "auth-basic", "name": "Authorization"}]},
+             {"mode": "userinfo", "cfg": "default", "sanitize": False, "slots": [{"route": "url-userinfo", "name": "Authorization"}]},
+             {"mode": "auth", "cfg": "custom-keys", "sanitize": True, "slots": [{"route": "auth-basic", "name": "Authorization"}]},
+             {"mode": "userinfo", "cfg": "custom-markers", "sanitize": True, "slots": [{"route": "url-userinfo", "name": "Authorization"}]},
+             key_run("custom-keys", True, 0), key_run("custom-markers", False, 1)]
     n = len(pool)
-    for cfg, sanitize, step in (("default", True, 1), ("custom-keys", True, 3), ("custom-markers", True, 3), ("default", False, 5)):
-        for i in range(0, n, step):
+    for cfg, sanitize, step in (("default", True, 2), ("custom-keys", True, 5), ("custom-markers", True, 5), ("default", False, 9)):
+        for i in range(ctx.seed % step, n, step):
             runs.append(headers_run(cfg, sanitize, pool[i], pool[(i + 7) % n], pool[(i + 13) % n], pool[(i + 19) % n],
                                     pool[(i + 29) % n], pool[(i + 37) % n]))
     return runs
@@ -262,26 +286,34 @@ def plan_runs(ctx: Ctx, pool: list[str]) -> list[dict]:
 def e2e_run(item: tuple[int, dict]) -> dict:
     idx, run = item
     rng = random.Random(1000 + idx)
-    canary = {r: "cq%d%s%s" % (idx, "".join(rng.choice("bcdfghjkmnpqrstvwxz") for _ in range(10)), "%dz" % k) for k, r in enumerate(ROUTES)}
-    names = dict(run["names"])
     mode = run["mode"]
-    params = []
-    if mode == "headers":
-        user = names["user-header"]
-        if names["gen-header"].lower() not in NOT_GENERATED_HEADERS and names["gen-header"].lower() != user.lower():
-            params.append({"name": names["gen-header"], "in": "header", "required": True,
-                           "schema": {"type": "string", "enum": [canary["gen-header"]]}})
-        params.append({"name": names["gen-query"], "in": "query", "required": True, "schema": {"type": "string", "enum": [canary["gen-query"]]}})
-        if user.lower() != "cookie":
-            params.append({"name": names["gen-cookie"], "in": "cookie", "required": True,
-                           "schema": {"type": "string", "enum": [canary["gen-cookie"]]}})
+    slots = [dict(sl, k=k, canary="cq%ds%d%sz" % (idx, k, "".join(rng.choice("bcdfghjkmnpqrstvwxz") for _ in range(10))))
+             for k, sl in enumerate(run["slots"])]
+    by_route: dict[str, list[dict]] = {}
+    for sl in slots:
+        by_route.setdefault(sl["route"], []).append(sl)
+    user_names = {sl["name"].lower() for sl in by_route.get("user-header", [])}
+    params, planned = [], []
+    seen_headers = set(user_names)
+    for sl in by_route.get("gen-header", []):
+        low = sl["name"].lower()
+        if low in NOT_GENERATED_HEADERS or low in seen_headers:  # header names are case-insensitive: one spelling per run
+            continue
+        seen_headers.add(low)
+        params.append({"name": sl["name"], "in": "header", "required": True, "schema": {"type": "string", "enum": [sl["canary"]]}})
+    for sl in by_route.get("gen-query", []):
+        params.append({"name": sl["name"], "in": "query", "required": True, "schema": {"type": "string", "enum": [sl["canary"]]}})
+    if "cookie" not in user_names:
+        for sl in by_route.get("gen-cookie", []):
+            params.append({"name": sl["name"], "in": "cookie", "required": True, "schema": {"type": "string", "enum": [sl["canary"]]}})
     schema = {"openapi": "3.0.2", "info": {"title": "t", "version": "1"},
               "paths": {"/items": {"get": {"parameters": params, "responses": {"200": {"description": "ok"}}}}}}
     resp_headers = [("Content-Type", "application/json")]
-    if mode == "headers":
-        resp_headers.append(("Set-Cookie", "%s=%s; Path=/" % (names["resp-set-cookie"], canary["resp-set-cookie"])))
-        if names["resp-header"].lower() not in NOT_RESPONSE_HEADERS:
-            resp_headers.append((names["resp-header"], canary["resp-header"]))
+    for sl in by_route.get("resp-set-cookie", []):
+        resp_headers.append(("Set-Cookie", "%s=%s; Path=/" % (sl["name"], sl["canary"])))
+    for sl in by_route.get("resp-header", []):
+        if sl["name"].lower() not in NOT_RESPONSE_HEADERS:
+            resp_headers.append((sl["name"], sl["canary"]))
 
     def behaviour(rec):
         if rec.path.endswith("/openapi.json"):
@@ -297,20 +329,20 @@ def e2e_run(item: tuple[int, dict]) -> dict:
                    "--max-examples", "2", "--checks", "not_a_server_error", "--workers", "1", "--seed", "1",
                    "--output-sanitize", "true" if run["sanitize"] else "false"]
             eq = run.get("eq", False)  # the --option=value spelling
-            if mode == "headers":
-                hv = "%s: %s" % (names["user-header"], canary["user-header"])
+            for sl in by_route.get("user-header", []):
+                hv = "%s: %s" % (sl["name"], sl["canary"])
                 cmd += ["--header=" + hv] if eq else ["-H", hv]
-            elif mode == "auth":
-                cmd += ["--auth=user:" + canary["auth-basic"]] if eq else ["--auth", "user:" + canary["auth-basic"]]
-            elif mode == "userinfo":
-                cmd += ["--url", "http://user:%s@127.0.0.1:%d" % (canary["url-userinfo"], srv.port)]
+            for sl in by_route.get("auth-basic", []):
+                cmd += ["--auth=user:" + sl["canary"]] if eq else ["--auth", "user:" + sl["canary"]]
+            for sl in by_route.get("url-userinfo", []):
+                cmd += ["--url", "http://user:%s@127.0.0.1:%d" % (sl["canary"], srv.port)]
             env = dict(os.environ, COLUMNS="400", NO_COLOR="1", TERM="dumb")
             env.pop("SCHEMATHESIS_HOOKS", None)
             if CUSTOM[run["cfg"]] is not None:
                 with open(os.path.join(d, "c15hooks.py"), "w") as fd:
                     fd.write("import schemathesis\nschemathesis.sanitization.configure(**%r)\n" % CUSTOM[run["cfg"]])
                 env["SCHEMATHESIS_HOOKS"] = "c15hooks"
-            p = subprocess.run(cmd, capture_output=True, text=True, cwd=d, env=env, timeout=300)
+            p = subprocess.run(cmd, capture_output=True, text=True, cwd=d, env=env, timeout=600)
             log = srv.snapshot()
         out = p.stdout + "\n" + p.stderr
         if "Reproduce with" not in out or p.returncode != 1:
@@ -323,26 +355,110 @@ def e2e_run(item: tuple[int, dict]) -> dict:
                     sinks[sink] = fd.read()
             except FileNotFoundError:
                 return {"error": "CLI run %d wrote no %s" % (idx, fname)}
-        # which routes were really exercised: the server log is the ground truth
+        # which slots were really exercised: the server log is the ground truth
         reqs = [r for r in log if r.path.endswith("/items")]
         sent = "\n".join(r.target + "\n" + "\n".join("%s: %s" % (k, v) for k, v in r.headers) for r in reqs)
-        carrier = {"auth-basic": "Authorization", "url-userinfo": "Authorization"}  # url-userinfo: the name is irrelevant
-        routes = []
-        for r in ROUTES:
-            if r in ("resp-set-cookie", "resp-header"):
-                exercised = bool(reqs) and any(canary[r] in v for _, v in resp_headers)
+        routes, not_exercised = [], []
+        for sl in slots:
+            if sl["route"] in ("resp-set-cookie", "resp-header"):
+                exercised = bool(reqs) and any(sl["canary"] in v for _, v in resp_headers)
             else:
-                exercised = occurs(canary[r], sent)
+                exercised = occurs(sl["canary"], sent)
             if exercised:
-                routes.append({"route": r, "name": [ord(c) for c in (names.get(r) or carrier.get(r, "-"))],
-                               "present": {s: occurs(canary[r], sinks[s]) for s in SINKS}})
-        planned = [r for r in ROUTES if (r in names or (mode == "auth" and r == "auth-basic") or (mode == "userinfo" and r == "url-userinfo"))]
+                routes.append({"route": sl["route"], "name": [ord(c) for c in sl["name"]], "k": sl["k"],
+                               "present": {s: occurs(sl["canary"], sinks[s]) for s in SINKS}})
+            else:
+                not_exercised.append(sl["route"])
         return {"cfg": run["cfg"], "sanitize": run["sanitize"], "mode": mode, "routes": routes, "idx": idx,
-                "not_exercised": [r for r in planned if r not in [x["route"] for x in routes]],
-                "canary": canary, "names": names,
-                "excerpt": {s: _excerpts(sinks[s], list(canary.values())) for s in SINKS}}
+                "not_exercised": not_exercised, "canary": {sl["k"]: sl["canary"] for sl in slots},
+                "excerpt": {s: _excerpts(sinks[s], [sl["canary"] for sl in slots]) for s in SINKS}}
     finally:
         shutil.rmtree(d, ignore_errors=True)
+
+
+# ------------------------------------------------------------------------------------------------------------------
+# (iii) Python API channel: credentials put on the request by a `requests` auth object
+# ------------------------------------------------------------------------------------------------------------------
+API_CHILD = r"""
+import json, sys
+from hypothesis import HealthCheck, Phase, given, settings
+from requests.auth import AuthBase, HTTPBasicAuth
+import schemathesis
+from schemathesis.core.failures import FailureGroup
+from schemathesis.core.output import OutputConfig
+from harness.server import LoopbackServer
+
+spec = json.loads(sys.stdin.read())
+if spec["cfg_kw"]:
+    schemathesis.sanitization.configure(**spec["cfg_kw"])
+RAW = {"openapi": "3.0.2", "info": {"title": "t", "version": "1"},
+       "paths": {"/users": {"get": {"parameters": [{"name": "limit", "in": "query", "schema": {"type": "integer", "enum": [1]}}],
+                                    "responses": {"200": {"description": "OK"}}}}}}
+
+
+class HeaderAuth(AuthBase):
+    def __init__(self, name, value):
+        self.name, self.value = name, value
+
+    def __call__(self, r):
+        r.headers[self.name] = self.value
+        return r
+
+
+rows = []
+with LoopbackServer(lambda rec: (500, [("Content-Type", "application/json")], b'{"detail": "boom"}')) as srv:
+    for it in spec["items"]:
+        schema = schemathesis.openapi.from_dict(RAW).configure(base_url=srv.base_url, output=OutputConfig(sanitize=spec["sanitize"]))
+        kw = {}
+        if it["carrier"] == "basic-auth-object":
+            schema.auth.set_from_requests(HTTPBasicAuth("svc", it["canary"]))
+        elif it["carrier"] == "header-auth-object":
+            schema.auth.set_from_requests(HeaderAuth(it["name"], it["canary"]))
+        elif it["carrier"] == "auth-at-call":
+            kw["auth"] = ("svc", it["canary"])
+        texts = []
+
+        @given(case=schema["/users"]["GET"].as_strategy())
+        @settings(max_examples=1, deadline=None, database=None, phases=[Phase.generate], derandomize=True,
+                  suppress_health_check=list(HealthCheck))
+        def once(case):
+            texts.append(case.as_curl_command())
+            try:
+                case.call_and_validate(**kw)
+            except FailureGroup as exc:
+                texts.append(str(exc) + "\n" + "\n".join(str(e) for e in exc.exceptions))
+
+        srv.clear()
+        once()
+        sent = "\n".join("%s: %s" % (k, v) for r in srv.snapshot() for k, v in r.headers)
+        rows.append({"text": "\n".join(texts), "sent": sent})
+print(json.dumps(rows))
+"""
+
+
+def api_runs(kind: str, sanitize: bool, items: list[dict]) -> list[dict]:
+    """One child process per (configuration, sanitize): for every item a fresh schema whose credential comes from a `requests` auth
+    object (HTTPBasicAuth / a header-setting AuthBase under `name`) or from `auth=` at call time; the curl sink is
+    Case.as_curl_command() plus the failure report of call_and_validate() against a loopback server answering 500."""
+    p = subprocess.run(["/venv/bin/python", "-c", API_CHILD], input=json.dumps({"cfg_kw": CUSTOM[kind], "sanitize": sanitize, "items": items}),
+                       capture_output=True, text=True, timeout=1200, cwd=common.ROOT)
+    if p.returncode != 0:
+        raise RuntimeError("api_runs child failed: " + p.stderr[-2000:])
+    rows = json.loads(p.stdout.strip().splitlines()[-1])
+    out = []
+    for it, row in zip(items, rows):
+        if "Reproduce with" not in row["text"]:
+            raise RuntimeError("API run produced no failure report for %r: %s" % (it, row["text"][-500:]))
+        if not occurs(it["canary"], row["sent"]):
+            out.append({"skip": it})
+            continue
+        present = {s: False for s in SINKS}
+        present["curl"] = occurs(it["canary"], row["text"])
+        out.append({"cfg": kind, "sanitize": sanitize, "mode": "api:" + it["carrier"], "idx": -1, "not_exercised": [],
+                    "routes": [{"route": "requests-auth", "name": [ord(c) for c in it["name"]], "k": 0, "present": present}],
+                    "canary": {0: it["canary"]}, "excerpt": {s: (_excerpts(row["text"], [it["canary"]]) if s == "curl" else []) for s in SINKS},
+                    "item": it})
+    return out
 
 
 def _excerpts(hay: str, secrets: list[str]) -> list[str]:
@@ -391,11 +507,18 @@ def run(ctx: Ctx) -> Outcome:
         out.violations.append(Violation("C15:spec:" + inv, "design invariant %s violated in Sanitize.tla" % inv,
                                         {"kind": "spec", "invariant": inv, "trace": res.counterexample[:60]}))
     sens = {(text(n["name"]).lower(), n["cfg"]): n["sensitive"] for n in names}
-    expected = {(text(f["name"]).lower(), f["cfg"], f["route"], f["sink"], f["sanitize"]): f["expected"] for f in flows}
+    info = {(text(n["name"]), n["cfg"]): n for n in names}
+    flow = {(f["route"], f["sink"], f["sanitize"], f["sens"], f["omitted"]): f["expected"] for f in flows}
+
+    def expected(name: str, cfg: str, route: str, sink: str, sanitize: bool) -> str:
+        n = info[(name, cfg)]
+        return flow[(route, sink, sanitize, n["carrier"][route], n["omitted"])]
+
     pool = []
     for n in names:
         if text(n["name"]) not in pool:
             pool.append(text(n["name"]))
+    default_keys = sorted({text(n["name"]) for n in names if n["isDefaultKey"]})
 
     # (i) unit level ---------------------------------------------------------------------------------------------
     t1 = time.time()
@@ -419,14 +542,25 @@ def run(ctx: Ctx) -> Outcome:
     t_hist = time.time() - t1
 
     # (ii) end to end ----------------------------------------------------------------------------------------------
-    plan = plan_runs(ctx, pool)
+    plan = plan_runs(ctx, pool, default_keys)
+    # (iii) Python API channel: requests auth objects; names = a seeded sample of the pool (all of it in thorough)
+    api_names = ["Authorization", "X-API-Key", "X-Trace"] + common.sample(rng, pool, 12 if ctx.quick else len(pool))
+    api_items = [{"carrier": "basic-auth-object", "name": "Authorization"}, {"carrier": "auth-at-call", "name": "Authorization"}] + \
+        [{"carrier": "header-auth-object", "name": n} for n in dict.fromkeys(api_names)]
+    for k, it in enumerate(api_items):
+        it["canary"] = "cqA%dx%sz" % (k, "".join(rng.choice("bcdfghjkmnpqrstvwxz") for _ in range(10)))
+    api_plan = [("default", True), ("default", False), ("custom-keys", True), ("custom-markers", True)]
     t1 = time.time()
     with ThreadPoolExecutor(12) as ex:
+        api_future = [ex.submit(api_runs, kind, sanitize, api_items) for kind, sanitize in api_plan]
         observed = list(ex.map(e2e_run, list(enumerate(plan))))
+        api_obs = [o for fut in api_future for o in fut.result()]
     t_e2e = time.time() - t1
     errors = [o["error"] for o in observed if "error" in o]
     if errors:
         raise RuntimeError("%d end-to-end runs unusable, e.g. %s" % (len(errors), errors[0]))
+    api_skipped = [o for o in api_obs if "skip" in o]
+    observed += [o for o in api_obs if "skip" not in o]
     unit_bad, run_bad, jres, hist_bad = judge(ctx, units, observed, hists=hobs)
     for i, (h, o) in enumerate(zip(hs, hobs)):  # driver-side comparison with the exported outputs of the machine
         mine = {(x["form"], x["step"], "over-redacted" if x["redacted"] else "leak") for x in o["outs"]
@@ -453,16 +587,14 @@ def run(ctx: Ctx) -> Outcome:
     for i, r in enumerate(observed):
         mine = set()
         for x in r["routes"]:
-            nm = text(x["name"]).lower()
             for s in SINKS:
-                key = (nm, r["cfg"], x["route"], s, r["sanitize"])
                 n_cells += 1
-                e = expected[key]
+                e = expected(text(x["name"]), r["cfg"], x["route"], s, r["sanitize"])
                 n_nontrivial += e == "absent"
                 if e == "absent" and x["present"][s]:
-                    mine.add((x["route"], s, "leak"))
+                    mine.add((x["route"], s, "leak", x["k"]))
                 elif e == "present" and not x["present"][s]:
-                    mine.add((x["route"], s, "missing"))
+                    mine.add((x["route"], s, "missing", x["k"]))
         theirs = run_bad.get(i, set())
         if mine != theirs:
             raise tlc.TLCFailure("run %d: driver %s, TLC %s - machinery inconsistency" % (i, sorted(mine), sorted(theirs)))
@@ -475,17 +607,22 @@ def run(ctx: Ctx) -> Outcome:
                 "%s(%r) under %s config: %s" % (form, text(u["name"]), u["cfg"], direction), {"kind": "unit", "unit": u}))
     for i, bad in sorted(run_bad.items()):
         r = observed[i]
-        for route, sink, direction in sorted(bad):
-            nm = text_name(r, route)
+        for route, sink, direction, k in sorted(bad):
+            nm = next(text(x["name"]) for x in r["routes"] if x["k"] == k and x["route"] == route)
+            cls = "userinfo" if route == "url-userinfo" else name_class(nm, r["cfg"], sens, route)
+            if r["mode"].startswith("api:"):
+                cls += ":" + r["mode"][4:]
+                rep = {"kind": "api", "cfg": r["cfg"], "sanitize": r["sanitize"], "item": r["item"]}
+            else:
+                rep = {"kind": "e2e", "run": plan[r["idx"]], "idx": r["idx"]}
             out.violations.append(Violation(
-                "C15:%s:%s:%s:%s" % (route, sink, direction, "userinfo" if route == "url-userinfo" else name_class(nm, r["cfg"], sens, route)),
+                "C15:%s:%s:%s:%s" % (route, sink, direction, cls),
                 "run #%d (%s, cfg=%s, sanitize=%s): canary of route %s (carrier %r) %s %s; e.g. %s" % (
                     r["idx"], r["mode"], r["cfg"], r["sanitize"], route, nm,
                     "found in" if direction == "leak" else "not found in", sink,
-                    [e for e in r["excerpt"][sink] if r["canary"][route] in e][:1]),
-                {"kind": "e2e", "run": plan[r["idx"]], "idx": r["idx"]}))
+                    [e for e in r["excerpt"][sink] if r["canary"][k] in e][:1]), rep))
 
-    not_ex = sum(len(r["not_exercised"]) for r in observed)
+    not_ex = sum(len(r["not_exercised"]) for r in observed) + len(api_skipped)
     out.coverage = {
         "states": res.distinct + res_h.distinct, "transitions": res.generated + res_h.generated,
         "traces_validated_against_impl": len(units) + len(observed) + len(hobs),
@@ -496,15 +633,18 @@ def run(ctx: Ctx) -> Outcome:
         "evaluations": len(units) + sum(len(r["routes"]) * len(SINKS) for r in observed),
         "distinct_nontrivial": sum(1 for n in names if n["sensitive"]) + n_nontrivial,
         "name_cfg_pairs": len(names), "flow_matrix_cells": len(flows), "unit_observations": len(units),
-        "e2e_runs": len(observed), "e2e_cells_judged": n_cells, "e2e_cells_expected_absent": n_nontrivial,
+        "e2e_runs": len(plan), "api_channel_observations": len(api_obs), "default_keys": len(default_keys),
+        "e2e_slots_judged": sum(len(r["routes"]) for r in observed), "e2e_cells_judged": n_cells, "e2e_cells_expected_absent": n_nontrivial,
         "skipped_outside_fragment": not_ex, "routes_planned_but_not_exercised": not_ex,
         "samples": [{"cfg": r["cfg"], "sanitize": r["sanitize"], "mode": r["mode"],
-                     "matrix": {x["route"]: {"carrier": text(x["name"]), "present": x["present"]} for x in r["routes"]}}
+                     "matrix": {"%s#%d" % (x["route"], x["k"]): {"carrier": text(x["name"]), "present": x["present"]} for x in r["routes"][:8]}}
                     for r in common.sample(rng, observed, 2)]
                    + [{"unit": {"name": text(u["name"]), "cfg": u["cfg"], "form": u["form"], "redacted": u["redacted"]}}
                       for u in common.sample(rng, units, 3)],
         "rule": "every (name, cfg) of the pool in Sanitize.tla x every value shape of the sanitizer functions (exhaustive); end to end: "
-                "the planned CLI runs (quick: one per configuration/route group; thorough: every pool name on every route); non-trivial = "
+                "the planned CLI runs (every default key x 3 spellings in header, query and cookie position under default and custom-marker "
+                "configurations; one run per configuration/route group; thorough: every pool name on the routes) and the Python API channel "
+                "(requests auth objects under pool names); non-trivial = "
                 "the spec expects the secret to be absent",
         "exhaustive": True,
         "constants": {"pool": len(pool), "cfgs": list(CUSTOM), "routes": ROUTES, "sinks": SINKS},
@@ -515,6 +655,7 @@ def run(ctx: Ctx) -> Outcome:
         "the loopback server log is the ground truth for which routes were exercised; routes whose canary never reached the wire are not judged",
         "console = stdout+stderr of `st run` without the curl lines; curl = those lines; file sinks are read after the CLI process exited",
         "configuration histories are replayed through the module-level API of one process per worker; every history starts and ends with the defaults re-installed through configure()",
+        "Python API channel: curl sink = Case.as_curl_command() + the failure report of call_and_validate(); the other sinks are not exercised there",
         "custom configurations are installed through SCHEMATHESIS_HOOKS + schemathesis.sanitization.configure (replace semantics)",
         "which sink shows which field when nothing is redacted (MustCarry) is part of the specification",
     ]
@@ -544,12 +685,17 @@ def replay(ctx: Ctx, data: dict) -> Outcome:
         _, _, _, bad = judge(ctx, [], [], "replay", hists=[o])
         for form, step, direction in sorted(bad.get(0, set())):
             out.violations.append(Violation("C15:history:%s:%s" % (form, direction), "step %d via %s: %s" % (step, form, direction), data))
+    elif data.get("kind") == "api":
+        obs = [o for o in api_runs(data["cfg"], data["sanitize"], [data["item"]]) if "skip" not in o]
+        _, bad, _ = judge(ctx, [], obs, "replay")
+        for route, sink, direction, _k in sorted(bad.get(0, set())):
+            out.violations.append(Violation("C15:%s:%s:%s" % (route, sink, direction), "canary of %s %s in %s" % (route, direction, sink), data))
     elif data.get("kind") == "e2e":
         o = e2e_run((data["idx"], data["run"]))
         if "error" in o:
             raise RuntimeError(o["error"])
         _, bad, _ = judge(ctx, [], [o], "replay")
-        for route, sink, direction in sorted(bad.get(0, set())):
+        for route, sink, direction, _k in sorted(bad.get(0, set())):
             out.violations.append(Violation("C15:%s:%s:%s" % (route, sink, direction), "canary of %s %s in %s" % (route, direction, sink), data))
     return out
 
@@ -561,9 +707,9 @@ def selftest(ctx: Ctx) -> bool:
              {"name": name, "cfg": "default", "form": "header-list", "redacted": False},
              {"name": [ord(c) for c in "Accept"], "cfg": "default", "form": "header-list", "redacted": True}]
     present = {s: False for s in SINKS}
-    runs = [{"cfg": "default", "sanitize": True, "routes": [{"route": "user-header", "name": name, "present": present}]},
-            {"cfg": "default", "sanitize": True, "routes": [{"route": "user-header", "name": name, "present": dict(present, vcr=True)}]},
-            {"cfg": "default", "sanitize": False, "routes": [{"route": "user-header", "name": name, "present": dict(present, vcr=True)}]}]
+    runs = [{"cfg": "default", "sanitize": True, "routes": [{"route": "user-header", "name": name, "k": 0, "present": present}]},
+            {"cfg": "default", "sanitize": True, "routes": [{"route": "user-header", "name": name, "k": 0, "present": dict(present, vcr=True)}]},
+            {"cfg": "default", "sanitize": False, "routes": [{"route": "user-header", "name": name, "k": 0, "present": dict(present, vcr=True)}]}]
     xc = [ord(c) for c in "X-Custom"]
     steps = [{"kind": "S", "op": "-", "name": xc}, {"kind": "C", "op": "configure-keys", "name": []}, {"kind": "S", "op": "-", "name": xc}]
     good_h = {"steps": steps, "outs": [{"step": 1, "form": "url", "redacted": False}, {"step": 3, "form": "url", "redacted": True}]}
@@ -573,8 +719,8 @@ def selftest(ctx: Ctx) -> bool:
         print("selftest: history judge gave", hb)
         return False
     ok = ub == {1: {("header-list", "-", "leak")}, 2: {("header-list", "-", "over-redacted")}} and \
-        rb == {1: {("user-header", "vcr", "leak")}, 2: {("user-header", "curl", "missing"), ("user-header", "junit", "missing"),
-                                                        ("user-header", "har", "missing")}}
+        rb == {1: {("user-header", "vcr", "leak", 0)}, 2: {("user-header", "curl", "missing", 0), ("user-header", "junit", "missing", 0),
+                                                           ("user-header", "har", "missing", 0)}}
     if not ok:
         print("selftest: judge gave", ub, rb)
     return ok
